@@ -104,7 +104,7 @@ pub fn monitor(trace: &[String], nconns: usize, cap: usize) -> Vec<(String, Stri
 					e.released.get_or_insert(i);
 				}
 			}
-		} else if ev.starts_with("return:") || ev == "reject" || ev == "drop-pending" || ev == "accept:err" {
+		} else if ev.starts_with("return:") || ev == "reject" || ev == "drop-pending" || ev == "accept:err" || ev == "accept:cancelled" {
 			e.released.get_or_insert(i);
 		}
 	}
@@ -256,6 +256,15 @@ pub fn monitor(trace: &[String], nconns: usize, cap: usize) -> Vec<(String, Stri
 		for r in reqs.iter().filter(|r| r.conn == c && r.method == "sub") {
 			let (Some(rx), Some(resp)) = (r.rx, &r.resp) else { continue };
 			let refused = resp["error"]["code"] == -32006;
+			// a subscribe call may only fail with -32006 (connection full) or with what its handler did
+			if let Some(code) = resp["error"]["code"].as_i64() {
+				let script = r.params.get(0).and_then(|x| x.as_u64()).unwrap_or(0);
+				// harness scripts: 2 = reject (error 4001), 3 = drop the pending sink (the library answers -32603)
+				let allowed = code == -32006 || (script == 2 && code == 4001) || (script == 3 && code == -32603);
+				if !allowed {
+					v.push((format!("subscribe-refused-with-wrong-code:cap{cap}"), format!("connection {c}: subscribe call answered with error {code} (expected -32006 when the connection is full); max_subscriptions_per_connection = {cap}")));
+				}
+			}
 			if refused {
 				// at some moment in [tx, rx] the connection must have been full
 				let mut cur = 0i64;
@@ -347,6 +356,8 @@ pub fn scenarios(thorough: bool) -> Vec<BookScenario> {
 			}
 			if cap > 0 {
 				peer.push(Unsub(0));
+			} else {
+				peer.push(UnsubRaw(json!([999])));
 			}
 			peer.push(Subscribe(h));
 			peer.push(Subscribe(h));
